@@ -15,14 +15,16 @@ def V(n):
 I_LEAVES = [("t",), ("r",)]
 B_LEAVES = [("bt",), ("bf",)]
 O_LEAVES = [("o",), ("on",)]
-BIN_I = ["-", "*", "f2", "m", "+s"]          # I x I -> I   (+s: string concatenation of two ints, observable order of values)
+BIN_I = ["-", "*", "f2", "m", "+s", "+", "/", "%", "&", "|", "xor", "<<", ">>"]   # I x I -> I  (+s: string concatenation)
+CMP = ["<", "<=", ">", ">=", "==", "!="]       # I x I -> B
+CORE = {"-", "*", "f2", "m", "+s", "<", ">", "&&", "||", "!", "or", "f3", "f4", "sum3", "msum", "idx"}   # node kinds used by the deep layers
 WIDE_I = {"f3": 3, "f4": 4, "sum3": 3, "msum": 4, "idx": 3}
-BIN_B = ["&&", "||"]
+BIN_B = ["&&", "||", "^"]
 
 
 def ty(n):
     k = n[0]
-    if k in ("bt", "bf", "<", "&&", "||", "!"):
+    if k in ("bt", "bf", "&&", "||", "^", "!") or k in CMP:
         return "B"
     if k in ("o", "on"):
         return "O"
@@ -45,8 +47,9 @@ def depth1():
     for o_ in O_LEAVES:
         for a in I_LEAVES:
             out.append(("or", o_, a))
-    for a, b in itertools.product(I_LEAVES, repeat=2):
-        out.append(("<", a, b))
+    for op in CMP:
+        for a, b in itertools.product(I_LEAVES, repeat=2):
+            out.append((op, a, b))
     for op in BIN_B:
         for a, b in itertools.product(B_LEAVES, repeat=2):
             out.append((op, a, b))
@@ -56,7 +59,7 @@ def depth1():
 
 
 def child_types(op):
-    if op in BIN_I or op == "<":
+    if op in BIN_I or op in CMP:
         return ["I", "I"]
     if op in WIDE_I:
         return ["I"] * WIDE_I[op]
@@ -69,7 +72,7 @@ def child_types(op):
     raise ValueError(op)
 
 
-ALL_OPS = BIN_I + list(WIDE_I) + ["or", "<"] + BIN_B + ["!"]
+ALL_OPS = BIN_I + list(WIDE_I) + ["or"] + CMP + BIN_B + ["!"]
 
 
 def trees_full(depth, t):
@@ -79,7 +82,7 @@ def trees_full(depth, t):
     out = list(leaves_of(t))
     subs = {tt: trees_full(depth - 1, tt) for tt in ("I", "B", "O")}
     subs["O"] = list(O_LEAVES)
-    for op in ALL_OPS:
+    for op in [o for o in ALL_OPS if o in CORE]:
         cts = child_types(op)
         if ty((op,)) != t:
             continue
@@ -127,7 +130,7 @@ def trees_spine(depth, t, memo=None):
         return memo[key]
     out = list(leaves_of(t))
     if depth > 0:
-        for op in ALL_OPS:
+        for op in [o for o in ALL_OPS if o in CORE or depth == 1]:
             cts = child_types(op)
             if ty((op,)) != t:
                 continue
@@ -175,7 +178,7 @@ class Builder:
         if k == "on":
             return ("call", V("ov"), [("int", self.nid()), ("int", 0)])
         ch = [self.expr(c) for c in n[1:]]
-        if k in ("-", "*", "<", "&&", "||"):
+        if k in ("-", "*", "+", "/", "%", "&", "|", "xor", "<<", ">>", "&&", "||", "^") or k in CMP:
             return ("bin", k, ch[0], ch[1])
         if k == "+s":
             return ("call", V("slen"), [("bin", "+", ("bin", "+", ("str", ""), ch[0]), ch[1])])
@@ -289,8 +292,8 @@ class C15(Check):
     id = "C15"
     level = "model_checking"
     rule = ("typed expression trees whose leaves are logging calls t(i) (int), r(i) (recursive: re-enters the same code one frame deeper and "
-            "evaluates a binary expression there), b(i) (bool true/false), o(i) (int? present/nil); nodes: E-E, E*E, string concatenation, "
-            "E<E, f2..f4(E,..), obj.m(E,E), list literal [E,E,E], list literal + index, map literal {E:E,E:E}, B&&B, B||B, !B, (O) or E; "
+            "evaluates a binary expression there), b(i) (bool true/false), o(i) (int? present/nil); nodes: every binary operator of the language (+ - * / % & | xor << >> < <= > >= == != && || ^), string concatenation, "
+            " f2..f4(E,..), obj.m(E,E), list literal [E,E,E], list literal + index, map literal {E:E,E:E}, B&&B, B||B, !B, (O) or E; "
             "all trees of depth <=1, depth 2 with every child arbitrary for unary/binary nodes, depths 2-4 by rule 1 (one arbitrary child, "
             "siblings over all leaves); statement contexts print / assignment / if condition / while condition / call argument / return.")
     assumptions = ["leaf values are small so that no arithmetic overflow occurs", "map literal observed through its length only"]
